@@ -69,3 +69,15 @@ package components
 //@   loop 1 invariant count: outN[p.outPorts["out"]] == old(outN[p.outPorts["out"]]) + globCount(p.globPatterns, $i0, fsEpoch) + $i
 //@   loop 1 invariant logged-earlier: forall k int :: 0 <= k && k < $i0 ==> globLogged(p.outPorts["out"], old(outN[p.outPorts["out"]]), p.globPatterns, k, len(globOf(p.globPatterns[k], fsEpoch)), fsEpoch)
 //@   loop 1 invariant logged-this: globLogged(p.outPorts["out"], old(outN[p.outPorts["out"]]), p.globPatterns, $i0, $i, fsEpoch)
+
+//@ func (*FileGlobber).InDependency(p) (res)
+//@   props C19
+//@   ensures def: "in_dep" in p.inPorts && res == p.inPorts["in_dep"]
+
+//@ func (*FileGlobber).Run(p)
+//@   props C19
+//@   requires wf: wfSrcOut(p.BaseProcess, "out") && p.inPorts != nil && ("in_dep" in p.inPorts ==> p.inPorts["in_dep"] != nil && p.inPorts["in_dep"].Chan != nil)
+//@   modifies *
+//@   atcall (*FileGlobber).globFiles globs-only-after-the-dependency-stream-ended[C19]: "in_dep" in p.inPorts ==> chanRecvN(p.inPorts["in_dep"].Chan) == chanTotal(p.inPorts["in_dep"].Chan)
+//@   atcall (*FileGlobber).globFiles nothing-emitted-before[C19]: outN == old(outN) && p == old(p) && p.outPorts == old(p.outPorts) && p.globPatterns == old(p.globPatterns)
+//@   loop 0 invariant stable: p == old(p) && outN == old(outN) && outAt == old(outAt) && p.outPorts == old(p.outPorts) && p.inPorts == old(p.inPorts) && p.globPatterns == old(p.globPatterns) && p.outPorts["out"] == old(p.outPorts["out"]) && wfSrcOut(p.BaseProcess, "out") && "in_dep" in p.inPorts && p.inPorts["in_dep"] == old(p.inPorts["in_dep"]) && p.inPorts["in_dep"].Chan == old(p.inPorts["in_dep"].Chan)
